@@ -68,6 +68,14 @@ func (o *orbitDBEventLogStore) Get(ctx context.Context, cid cid.Cid) (operation.
 	case value, ok := <-stream:
 		cancel()
 		if ok {
+			// the listing skips an entry that is not an operation: asked for such an
+			// entry, it answers with the next operation of the log
+			if !value.GetEntry().GetHash().Equals(cid) {
+				if _, held := o.OpLog().Get(cid); held {
+					return nil, fmt.Errorf("entry %s is not an operation", cid.String())
+				}
+			}
+
 			return value, nil
 		}
 		return nil, fmt.Errorf("channel read failed")
